@@ -425,7 +425,7 @@ class C16(Prop):
 
     # -- exhaustive enumeration of all interleavings of two requests ---------------------------------------------
     def extra_checks(self, ctx, tier, seed, shard, nshards):
-        n_scen = 4 if tier == "quick" else 16
+        n_scen = 5 if tier == "quick" else 18
         cap = 140 if tier == "quick" else 924
 
         def scenario(data):
@@ -433,12 +433,17 @@ class C16(Prop):
             cfg = data.draw(config_strategy(v))
             case = Case(self, ctx, cfg, v)
             try:
-                for _ in range(data.draw(st.integers(2, 6))):
+                for _ in range(data.draw(st.integers(3, 7))):
                     case.step(data.draw(op_strategy(v, case.led, self.weights(), cfg.backend, case.ops)))
+                # at least one link-bearing request, so that link-walking queries take more than one step
+                lw = {"links": 1, "batch": 1}
+                case.step(data.draw(op_strategy(v, case.led, lw, cfg.backend, case.ops)))
                 two = [("batch", "batch"), ("batch", "rule"), ("batch", "q-network"), ("batch", "q-network"), ("batch", "q-network"),
                        ("batch", "q-pages"),
                        ("batch", "q-pagelinks"), ("rule", "q-network"), ("batch", "q-mostlinked"), ("rule", "q-children"),
-                       ("rule", "q-pages"), ("batch", "q-network-slow"), ("batch", "q-inlinks")]
+                       ("rule", "q-pages"), ("batch", "q-network-slow"), ("batch", "q-inlinks"),
+                       ("q-outlinks", "q-inlinks"), ("q-outlinks", "q-outlinks"), ("q-pages", "q-crawled"),
+                       ("q-pagelinks", "q-mostlinked"), ("q-inlinks", "q-inlinks")]
                 three = [("batch", "batch", "q-network"), ("batch", "rule", "q-pages"), ("batch", "batch", "batch"),
                          ("batch", "rule", "q-network")]
                 # thorough: one scenario in four has three requests (usually truncated at the cap; counted as such)
